@@ -51,55 +51,63 @@ Definition lambda_shape (body : list pyn) : list pyn :=
                 ++ [NSimple; NSimple; NSimple; NSimple; NSimple; NReturn]);
    NSimple; NSimple].
 
+Section WithShape.
+Variable sh : struct -> list pyn.
+
+(* transpile_ast on a branch: `pass` for an empty one *)
+Definition ast_with (l : list struct) : list pyn :=
+  match l with [] => [NSimple] | _ => flat_map sh l end.
+
+(* the items of a list literal: def list_item / f = list_item(..) / if f is not None: .. *)
+Fixpoint items_with (l : list (list struct)) : list pyn :=
+  match l with
+  | [] => []
+  | x :: r =>
+      NBlock BDef ([NSimple] ++ ast_with x ++ [NBlock BIf [NReturn]; NReturn])
+      :: NSimple :: NBlock BIf [NSimple] :: items_with r
+  end.
+
+(* the if / else-if chain (see Transpile.tr, `ifs`) *)
+Fixpoint ifs_with (bs : list (list struct)) (first : bool) : list pyn :=
+  match bs with
+  | [] => []
+  | [body] => if first then [NSimple; NBlock BIf (ast_with body)] else [NBlock BElse (ast_with body)]
+  | x :: ((y :: rest) as tl) =>
+      if first then [NSimple; NBlock BIf (ast_with x)] ++ ifs_with tl false
+      else [NBlock BElse (ast_with x ++ [NSimple; NBlock BIf (ast_with y)] ++ ifs_with rest false)]
+  end.
+End WithShape.
+
 Fixpoint shape (s : struct) : list pyn :=
-  let ast := fun (l : list struct) =>
-    match l with [] => [NSimple] | _ => flat_map shape l end in
-  let items := fix items (l : list (list struct)) : list pyn :=
-    match l with
-    | [] => []
-    | x :: r =>
-        NBlock BDef ([NSimple] ++ ast x ++ [NBlock BIf [NReturn]; NReturn])
-        :: NSimple :: NBlock BIf [NSimple] :: items r
-    end in
-  let ifs := fix ifs (bs : list (list struct)) (first : bool) : list pyn :=
-    match bs with
-    | [] => []
-    | [body] => if first then [NSimple; NBlock BIf (ast body)] else [NBlock BElse (ast body)]
-    | x :: ((y :: rest) as tl) =>
-        if first then [NSimple; NBlock BIf (ast x)] ++ ifs tl false
-        else [NBlock BElse (ast x ++ [NSimple; NBlock BIf (ast y)] ++ ifs rest false)]
-    end in
   let wrapped := fun (x : struct) =>
     match x with
-    | SLambda _ body => lambda_shape (ast body)
+    | SLambda _ body => lambda_shape (ast_with shape body)
     | _ => lambda_shape (shape x)
     end in
   match s with
   | SGeneric t => shape_token t
   | SBreak p => shape_break p
   | SRecurse p => shape_recurse p
-  | SIf bs => ifs bs true
-  | SFor _ body => [NBlock BLoop ([NSimple] ++ ast body ++ [NSimple])]
+  | SIf bs => ifs_with shape bs true
+  | SFor _ body => [NBlock BLoop ([NSimple] ++ ast_with shape body ++ [NSimple])]
   | SWhile c b =>
-      ast c ++ [NSimple; NBlock BLoop ([NSimple] ++ ast b ++ [NSimple] ++ ast c ++ [NSimple])]
+      ast_with shape c
+      ++ [NSimple; NBlock BLoop ([NSimple] ++ ast_with shape b ++ [NSimple] ++ ast_with shape c ++ [NSimple])]
   | SFnCall _ => [NSimple]
   | SFnDef _ ps body =>
       [NBlock BDef ([NSimple] ++ map (fun _ => NSimple) ps
-                    ++ [NSimple; NSimple; NSimple; NSimple; NSimple] ++ ast body
+                    ++ [NSimple; NSimple; NSimple; NSimple; NSimple] ++ ast_with shape body
                     ++ [NSimple; NSimple; NSimple; NReturn])]
-  | SLambda _ body => lambda_shape (ast body)
-  | SLamOp o body =>
-      lambda_shape (ast body) ++ elem_shape (lamop_key o)
-  | SList its => [NSimple] ++ items its ++ [NSimple]
+  | SLambda _ body => lambda_shape (ast_with shape body)
+  | SLamOp o body => lambda_shape (ast_with shape body) ++ elem_shape (lamop_key o)
+  | SList its => [NSimple] ++ items_with shape its ++ [NSimple]
   | SMod1 m a => wrapped a ++ [NSimple] ++ modif_shape m
   | SMod2 m a b => wrapped a ++ [NSimple] ++ wrapped b ++ [NSimple] ++ modif_shape m
   | SMod3 m a b c =>
-      wrapped a ++ [NSimple] ++ wrapped b ++ [NSimple] ++ wrapped c
-      ++ [NSimple] ++ modif_shape m
+      wrapped a ++ [NSimple] ++ wrapped b ++ [NSimple] ++ wrapped c ++ [NSimple] ++ modif_shape m
   end.
 
-Definition shape_program (l : list struct) : list pyn :=
-  match l with [] => [NSimple] | _ => flat_map shape l end.
+Definition shape_program (l : list struct) : list pyn := ast_with shape l.
 
 (* ---- where early exits may stand (the side condition of C02) --------------------------------
    in_loop: the statement is emitted inside the Python loop of the structure named by its
@@ -112,7 +120,7 @@ Fixpoint ctx_ok (in_loop in_def : bool) (s : struct) : bool :=
       match p with Some PFor | Some PWhile => in_loop | Some PLambda => in_def | _ => true end
   | SRecurse p =>
       match p with Some PFor | Some PWhile => in_loop | _ => true end
-  | SIf bs => forallb (all in_loop in_def) bs
+  | SIf bs => negb (match bs with [] => true | _ => false end) && forallb (all in_loop in_def) bs
   | SFor _ b => all true in_def b
   | SWhile c b => all false in_def c && all true in_def c && all true in_def b
   | SFnDef _ _ b => all false true b
